@@ -198,7 +198,8 @@ func c17Check(e *env, batch []c17Pending) {
 	if len(batch) == 0 {
 		return
 	}
-	reqs := make([]string, len(batch))
+	reqs := make([]string, 3*len(batch))
+	printed := make([]string, len(batch))
 	ids := newIDTable()
 	for i := range batch {
 		b := &batch[i]
@@ -224,8 +225,13 @@ func c17Check(e *env, batch []c17Pending) {
 			}
 			reqs[i] = "parse_print " + hx.I(int64(2*len(items)+12)) + " " + hx.I(int64(p)) + c17Tokens(rest)
 		}
+		reqs[len(batch)+i] = "ping"
+		reqs[2*len(batch)+i] = "ping"
 		if n != nil {
 			b.sexp = nodeSexp(n, ids)
+			printed[i] = n.String()
+			reqs[len(batch)+i] = "print_node " + b.sexp
+			reqs[2*len(batch)+i] = "tokens_of " + b.sexp
 		}
 	}
 	resp := e.m.Batch(reqs)
@@ -236,6 +242,10 @@ func c17Check(e *env, batch []c17Pending) {
 		e.res.Count(b.c.Kind+":"+b.c.Src, nontrivial && b.class == "ok", b.hist+":"+b.class)
 		if b.class == "ok" {
 			e.res.Sample(map[string]string{"src": b.c.Src, "tree": b.sexp})
+		}
+		if b.class != "ok" && (b.hist == "expr:random" || b.hist == "print" || b.hist == "expr:matrix") && e.res.Histogram["note:rejected"] < 12 {
+			e.res.Histogram["note:rejected"]++
+			e.res.Note("generated as valid but rejected (%s): %q", b.class, b.c.Src)
 		}
 		if b.class == "shape" {
 			continue // not a single print command (generator slip); nothing to compare
@@ -255,6 +265,53 @@ func c17Check(e *env, batch []c17Pending) {
 				Case: b.c, Expected: map[string]string{"class": b.class, "tree": b.sexp}, Observed: map[string]string{"class": mclass, "tree": msexp, "raw": strings.Join(r, " ")}}, "")
 		} else {
 			e.res.Histogram["parser-correspondence:agree:"+b.class]++
+		}
+		// ---- printer correspondence ----
+		if b.class == "ok" {
+			pr := resp[len(batch)+i]
+			switch {
+			case len(pr) == 1 && pr[0] == "none":
+				e.res.Histogram["printer-correspondence:skipped-float-outside-printing-domain"]++
+			case len(pr) == 2 && pr[0] == "some" && hx.UnH(pr[1]) == printed[i]:
+				e.res.Histogram["printer-correspondence:agree"]++
+			default:
+				got := strings.Join(pr, " ")
+				if len(pr) == 2 {
+					got = hx.UnH(pr[1])
+				}
+				e.res.Fail(hx.Violation{Kind: "mismatch", What: "model printer (Model/AstPrint.v, the REPAIRED String methods) and the real String() disagree", Case: b.c,
+					Expected: printed[i], Observed: got}, "")
+			}
+		}
+		// ---- token correspondence: the real scanner reads the real String() as the items
+		//      the Spec's tokens_of gives for this tree (this is the step the theorems
+		//      leave to the correspondence) ----
+		if b.class == "ok" && !c17Unsafe(strings.TrimSuffix(printed[i], "}")) {
+			var lexed []parse.VerifItem
+			if b.c.Kind == "expr" {
+				lexed = parse.VerifLex("", printed[i], true)
+				if k := len(lexed); k > 0 {
+					lexed = lexed[:k-1] // the closing "unclosed tag" error item of expression mode
+				}
+			} else {
+				lexed = parse.VerifLex("", printed[i], false)
+				if k := len(lexed); k >= 2 {
+					lexed = lexed[1 : k-1] // "{" ... EOF
+				}
+			}
+			var want []string
+			for _, it := range lexed {
+				want = append(want, hx.I(int64(it.Typ)), hx.H(it.Val))
+			}
+			tr := resp[2*len(batch)+i]
+			if strings.Join(tr, " ") == strings.Join(want, " ") {
+				e.res.Histogram["token-correspondence:agree"]++
+			} else if pr := resp[len(batch)+i]; len(pr) == 1 && pr[0] == "none" {
+				e.res.Histogram["token-correspondence:skipped-float-outside-printing-domain"]++
+			} else {
+				e.res.Fail(hx.Violation{Kind: "mismatch", What: "the scanner does not read String() as the items tokens_of (Spec/ExprSyntax.v) gives for the tree", Case: b.c,
+					Expected: map[string]string{"printed": printed[i], "items": strings.Join(want, " ")}, Observed: strings.Join(tr, " ")}, "")
+			}
 		}
 		// ---- oracle: the printed text parses back to the same tree ----
 		if b.class == "ok" {
